@@ -394,7 +394,7 @@ func (e *env) bbServer(d caseDesc, form string) {
 				e.rec.Seen("bb_outcomes", in.Pos+":"+form+":"+in.Class+":started")
 				e.rec.Seen("observed_transports_bb", in.Pos+":"+o.String())
 				e.rec.Stat("bb_probed_endpoints", 1)
-				e.judgeTransport(d, form, nat, a, o, &startObs{Input: a, Natural: nat, Observed: &o, Note: strings.Join(argv, " ")})
+				e.judgeTransport(d, form, nat, a, o, &startObs{Input: a, Natural: nat, Observed: &o, Note: strings.Join(argv, " ")}, false)
 				return
 			}
 			// wait for the process to do something: exit, or own a socket, or speak on stdout
@@ -430,7 +430,7 @@ func (e *env) bbServer(d caseDesc, form string) {
 					o := obs{Kind: "stdio", Net: "stdio", Detail: "answered the announce on stdout"}
 					bo.Observed = &o
 					e.rec.Case(key, true)
-					e.judgeTransport(d, form, nat, a, o, &startObs{Input: a, Natural: nat, Observed: &o})
+					e.judgeTransport(d, form, nat, a, o, &startObs{Input: a, Natural: nat, Observed: &o}, false)
 					return
 				}
 				if !poked && time.Since(t0) > 1500*time.Millisecond {
@@ -452,10 +452,19 @@ func (e *env) bbServer(d caseDesc, form string) {
 			hit, other := findEndpoint(socks, network, where)
 			wellFormed := in.Want == "accept"
 			target := hit
+			lenient := false
 			if hit == nil {
 				target = other
 				if wellFormed && where != "" {
 					e.viol(sigT(in, "listens-elsewhere"), d, bo)
+				}
+				if nat != nil {
+					nn := strings.SplitN(nat.Net, "|", 2)[0]
+					for _, nm := range namedEndpoints(a, nat, e.tmp) {
+						if h, _ := findEndpoint(socks, nn, nm); h != nil {
+							target, lenient = h, true
+						}
+					}
 				}
 			}
 			if structural[in.Class] {
@@ -471,7 +480,7 @@ func (e *env) bbServer(d caseDesc, form string) {
 			e.rec.Seen("observed_transports_bb", in.Pos+":"+o.String())
 			e.rec.Stat("bb_probed_endpoints", 1)
 			so := &startObs{Input: a, Natural: nat, Observed: &o, Bound: target.String(), Expected: bo.Expected, Note: "argv: " + strings.Join(argv, " ") + "\nconfig:\n" + bo.Config + "\nsockets: " + strings.Join(bo.Sockets, "; ")}
-			e.judgeTransport(d, form, nat, a, o, so)
+			e.judgeTransport(d, form, nat, a, o, so, lenient)
 		}()
 		if !retry {
 			return
@@ -663,7 +672,7 @@ func (e *env) bbUpstream(d caseDesc, form string) {
 			e.rec.Seen("bb_outcomes", in.Pos+":"+form+":"+in.Class+":emitted")
 			e.rec.Seen("observed_transports_bb", in.Pos+":"+o.String())
 			e.rec.Stat("bb_probed_endpoints", 1)
-			e.judgeTransport(d, form, nat, a, o, &startObs{Input: a, Natural: nat, Observed: &o, Flight: fl, Note: strings.Join(argv, " ")})
+			e.judgeTransport(d, form, nat, a, o, &startObs{Input: a, Natural: nat, Observed: &o, Flight: fl, Note: strings.Join(argv, " ")}, true)
 		}()
 		if !retry {
 			return
@@ -777,7 +786,7 @@ func (e *env) bbListener(d caseDesc, form string) {
 				o := obs{Kind: "stdio", Net: "stdio", Detail: "upstream saw " + early.Outer + " without any local connection"}
 				bo.Observed, bo.Flight = &o, early
 				e.rec.Seen("observed_transports_bb", in.Pos+":"+o.String())
-				e.judgeTransport(d, form, nat, a, o, &startObs{Input: cli, Natural: nat, Observed: &o, Flight: early})
+				e.judgeTransport(d, form, nat, a, o, &startObs{Input: cli, Natural: nat, Observed: &o, Flight: early}, true)
 				return
 			}
 			network, where := endpointOf(nat, a, e.tmp)
@@ -827,7 +836,8 @@ func (e *env) bbListener(d caseDesc, form string) {
 			bo.Observed = &o
 			e.rec.Seen("observed_transports_bb", in.Pos+":"+o.String())
 			e.rec.Stat("bb_probed_endpoints", 1)
-			e.judgeTransport(d, form, nat, a, o, &startObs{Input: cli, Natural: nat, Observed: &o, Flight: bo.Flight, Bound: target.String(), Expected: bo.Expected, Note: strings.Join(argv, " ")})
+			e.judgeTransport(d, form, nat, a, o, &startObs{Input: cli, Natural: nat, Observed: &o, Flight: bo.Flight, Bound: target.String(), Expected: bo.Expected, Note: strings.Join(argv, " ")},
+				namedHit(dn, target.Addr, namedEndpoints(a, nat, e.tmp)))
 			if in.Class == "documented" && in.Fwd != "" && !direct {
 				e.viol(sigT(in, "forward-not-tried-first"), d, bo)
 			}
@@ -931,12 +941,12 @@ func (e *env) bbChannelE2E(d caseDesc) {
 				bo.Observed, bo.Flight = &o, &f
 				e.rec.Seen("observed_transports_bb", "channel-e2e:"+o.String())
 				e.rec.Stat("bb_probed_endpoints", 1)
-				e.judgeTransport(d, "e2e", nat0, a, o, &startObs{Input: a, Natural: nat0, Observed: &o, Flight: &f, Note: doc})
+				e.judgeTransport(d, "e2e", nat0, a, o, &startObs{Input: a, Natural: nat0, Observed: &o, Flight: &f, Note: doc}, true)
 			case <-gaveUp:
 				select {
 				case f := <-rs.rec.C:
 					o := obs{Kind: "socket", Net: f.Net, Detail: "target saw " + f.Raw}
-					e.judgeTransport(d, "e2e", nat0, a, o, &startObs{Input: a, Natural: nat0, Observed: &o, Flight: &f, Note: doc})
+					e.judgeTransport(d, "e2e", nat0, a, o, &startObs{Input: a, Natural: nat0, Observed: &o, Flight: &f, Note: doc}, true)
 					return
 				default:
 				}
